@@ -30,7 +30,18 @@ var loaders = []loader{
 // typed Unpack, and the same again through *WithFile (plus whether an error names the file)
 func kFrontends(c J) interface{} {
 	text := []byte(str(c, "text"))
-	opts := buildOpts(c["opts"])
+	// one option list, with spare capacity, handed to every call: the list belongs to the caller
+	base := buildOpts(c["opts"])
+	opts := make([]ucfg.Option, len(base), len(base)+4)
+	copy(opts, base)
+	optIDs := func() []uintptr {
+		ids := make([]uintptr, len(opts))
+		for i, o := range opts {
+			ids[i] = reflect.ValueOf(o).Pointer()
+		}
+		return ids
+	}
+	before := optIDs()
 	var ty reflect.Type
 	if c["ty"] != nil {
 		if msg := prep(func() { ty = buildType(c["ty"]) }); msg != "" {
@@ -79,6 +90,12 @@ func kFrontends(c J) interface{} {
 		_, merr := l.file(filepath.Join(dir, "does-not-exist."+l.name), opts...)
 		r["missingFileErr"] = merr != nil
 		out[l.name] = r
+	}
+	after := optIDs()
+	for i := range before {
+		if before[i] != after[i] {
+			out["optsChanged"] = true
+		}
 	}
 	return out
 }
